@@ -1,6 +1,10 @@
 //! tzmc: bounded-exhaustive explorers that run the real tz-rs code against the reference models.
 mod common;
 mod cal;
+mod nanos;
+mod fmt;
+mod conv;
+mod table;
 
 use common::*;
 
@@ -21,6 +25,9 @@ fn main() {
         args.replay_dir = std::path::PathBuf::from("/verif/replay/again");
         match args.engine.as_str() {
             "cal" => cal::replay(&v["case"], &args),
+            "nanos" => nanos::replay(&v["case"], &args),
+            "fmt" => fmt::replay(&v["case"], &args),
+            "table" => table::replay(&v["case"], &args),
             _ => {
                 eprintln!("no replay for engine {}", args.engine);
                 2
@@ -30,6 +37,9 @@ fn main() {
         let args = Args::parse(&argv);
         match args.engine.as_str() {
             "cal" => cal::run(&args),
+            "nanos" => nanos::run(&args),
+            "fmt" => fmt::run(&args),
+            "table" => table::run(&args),
             e => {
                 eprintln!("unknown engine {e}");
                 2
